@@ -355,6 +355,7 @@ fn verif_emit_node(
         {
             let instr = defs.instructions.get(ast_instr.item_ref.unwrap());
             fields.push(("item", V::I(instr.item_ref.0 as i128)));
+            fields.push(("v", V::S(instr.encoding.verif_to_decimal())));
             fields.push(("bits", crate::verif::bits_of(&instr.encoding)));
             fields.push(("size", match instr.encoding.size { Some(s) => V::I(s as i128), None => V::Null }));
             fields.push(("flag", V::B(instr.resolved)));
@@ -369,6 +370,7 @@ fn verif_emit_node(
             fields.push(("item", V::I(elem.item_ref.0 as i128)));
             fields.push(("elem", V::I(elem_index as i128)));
             fields.push(("width", match ast_data.elem_size { Some(s) => V::I(s as i128), None => V::Null }));
+            fields.push(("v", V::S(elem.encoding.verif_to_decimal())));
             fields.push(("bits", crate::verif::bits_of(&elem.encoding)));
             fields.push(("size", match elem.encoding.size { Some(s) => V::I(s as i128), None => V::Null }));
             fields.push(("flag", V::B(elem.resolved)));
